@@ -132,8 +132,8 @@ def cycle_conditions(tier, seed):
 
 
 FAMILIES = [
-    Family('iter', body_iter, ['backing', 'n', 'ops'], PARAMS, conditions, timeout=dict(quick=60, thorough=300),
+    Family('iter', body_iter, ['backing', 'n', 'ops'], PARAMS, conditions, timeout=dict(quick=150, thorough=300),
            desc='list(ds) twice equals the eager reference (or the composition is refused where the reference says so)'),
-    Family('cycle', body_cycle, ['backing', 'n', 'ops'], PARAMS, cycle_conditions, timeout=dict(quick=60, thorough=300),
+    Family('cycle', body_cycle, ['backing', 'n', 'ops'], PARAMS, cycle_conditions, timeout=dict(quick=150, thorough=300),
            desc='islice(ds.cycle(), 2m+1) equals the repeated reference'),
 ]
